@@ -75,6 +75,7 @@ type runStats struct {
 	units, skipped, broken, undecidedUnits int
 	paths                                  int
 	decisions, implied                     int64
+	fdImplied, fdSolved, fdConfirmed       int64
 	queries, sat, unsat, unknown, solverErr int
 	solverS                                float64
 	steps                                  int64
@@ -219,6 +220,42 @@ func checkMain(args []string) int {
 	seed, _ := strconv.Atoi(os.Getenv("VERIF_SEED"))
 	t0 := time.Now()
 	units := p.Build(tier, 0)
+	unitsBuilt := len(units)
+	thinNote := ""
+	if tier == "thorough" {
+		// The thorough unit sets are products (all option sets x all lengths x the unthinned pattern products)
+		// and would run for days. Kept: every unit the quick tier runs (same id, so the thorough tier is a
+		// superset of the quick one) plus as many of the others as the budget allows, chosen by a fixed hash of
+		// the unit id. The numbers are written into the evidence.
+		budget := thoroughBudget[id]
+		if b, _ := strconv.Atoi(os.Getenv("GOSYM_THOROUGH_UNITS")); b > 0 {
+			budget = b
+		}
+		if budget > 0 && len(units) > budget {
+			quick := map[string]bool{}
+			for _, u := range p.Build("quick", 0) {
+				quick[u.ID] = true
+			}
+			var keep, rest []Unit
+			for _, u := range units {
+				if quick[u.ID] {
+					keep = append(keep, u)
+				} else {
+					rest = append(rest, u)
+				}
+			}
+			sort.SliceStable(rest, func(i, j int) bool { return hashSeed(rest[i].ID, 0) < hashSeed(rest[j].ID, 0) })
+			if n := budget - len(keep); n > 0 && n < len(rest) {
+				rest = rest[:n]
+			} else if n <= 0 {
+				rest = nil
+			}
+			units = append(keep, rest...)
+			thinNote = fmt.Sprintf("thorough tier: %d units built, %d explored (all %d quick-tier units + %d chosen by a fixed hash of the unit id)", unitsBuilt, len(units), len(keep), len(rest))
+			fmt.Fprintln(os.Stderr, "gosym:", thinNote)
+		}
+	}
+	runInfo = map[string]any{"units_built": unitsBuilt, "units_selected": len(units), "selection": thinNote}
 	if only := os.Getenv("GOSYM_ONLY"); only != "" {
 		// debugging aid: keep the units whose id contains the given text
 		var sel []Unit
@@ -240,7 +277,9 @@ func checkMain(args []string) int {
 	units = append(units, Unit{ID: "canary", Harness: "canary", Params: map[string]string{"n": "2"}, Domain: "quick"})
 	for i := range units {
 		if units[i].Domain == "" {
-			if tier == "thorough" {
+			// thorough: all of Unicode for texts of up to three runes; the longer texts (where the path count
+			// is what costs) keep the clipped rune domain of the quick tier
+			if n, _ := strconv.Atoi(units[i].Params["n"]); tier == "thorough" && n <= 3 {
 				units[i].Domain = "full"
 			} else {
 				units[i].Domain = "quick"
@@ -249,12 +288,18 @@ func checkMain(args []string) int {
 		if i%40 == 0 {
 			units[i].CountFns = true
 		}
+		if units[i].TimeBudgetS == 0 {
+			units[i].TimeBudgetS = 120
+			if tier == "thorough" {
+				units[i].TimeBudgetS = 600
+			}
+		}
 	}
 	nw := runtime.NumCPU()
 	if n, _ := strconv.Atoi(os.Getenv("GOSYM_WORKERS")); n > 0 {
 		nw = n
 	}
-	ut := 180 * time.Second
+	ut := 240 * time.Second
 	if tier == "thorough" {
 		ut = 900 * time.Second
 	}
@@ -262,6 +307,15 @@ func checkMain(args []string) int {
 	results := runUnits(units, nw, ut, true)
 	return report(p, tier, seed, results, t0)
 }
+
+// thoroughBudget: number of units explored by the thorough tier per property (chosen so that a run takes
+// roughly one to two hours on 16 cores; GOSYM_THOROUGH_UNITS overrides).
+var thoroughBudget = map[string]int{
+	"C01": 40000, "C15": 40000, "C03": 50000, "C04": 50000, "C05": 40000, "C07": 20000, "C18": 30000, "C20": 15000,
+	"C02": 6000, "C08": 5000, "C06": 3000, "C17": 25600, "C16": 8000, "C09": 2800, "C12": 1300, "C13": 1400, "C10": 1200,
+}
+
+var runInfo map[string]any
 
 type replayCase struct {
 	ID      string            `json:"id"`
@@ -347,6 +401,9 @@ func report(p *propSpec, tier string, seed int, results []UnitResult, t0 time.Ti
 		st.paths += r.Paths
 		st.decisions += r.Decisions
 		st.implied += r.Implied
+		st.fdImplied += r.FDImplied
+		st.fdSolved += r.FDSolved
+		st.fdConfirmed += r.FDConfirmed
 		st.queries += r.Queries
 		st.sat += r.Sat
 		st.unsat += r.Unsat
@@ -612,6 +669,7 @@ func report(p *propSpec, tier string, seed int, results []UnitResult, t0 time.Ti
 			"units_broken":                  broken,
 			"patterns":                      len(patterns),
 			"decisions_implied":             st.implied,
+			"finite_domain_procedure":       map[string]any{"decisions_implied": st.fdImplied, "path_conditions_decided": st.fdSolved, "verdicts_confirmed_by_z3": st.fdConfirmed, "note": "conditions over ONE variable with a listed domain (bytes, runes of the clipped domains, small integer ranges) are decided exactly on the candidate list by the engine (DESIGN.md 0.1); one in 5000 implied decisions and one in 100 path conditions decided this way are also put to z3 in every run; everything else is decided by z3"},
 			"queries":                       map[string]any{"total": st.queries, "sat": st.sat, "unsat": st.unsat, "unknown": st.unknown, "errors": st.solverErr},
 			"solver_s":                      st.solverS,
 			"interpreted_instructions":      st.steps,
@@ -620,6 +678,7 @@ func report(p *propSpec, tier string, seed int, results []UnitResult, t0 time.Ti
 			"intrinsics_hit":                st.intrinsics,
 			"functions_encoded_sampled":     fns,
 			"bounds":                        bounds,
+			"run":                           runInfo,
 			"known_findings_seen":           knownSeen,
 			"counterexamples_replayed":      nv,
 		},
